@@ -205,8 +205,9 @@ def run(ctx):
                     v["name"], v["proto"], v["alg"] or "none", v["tracing"], v["flags"], _short(v["wire"]), _short(v["logical"]),
                     (" PANIC " + v["panic"]) if v["panic"] else "")
             elif v["k"] == "wire":
-                key = "wire-%s-op=%d-configured=%s-%s" % (kind, v["op"], v["configured"] or "none",
-                                                         "advertised" if v["configured"] in v["advertised"] else "not-advertised")
+                key = "wire-%s-op=%d-configured=%s-%s%s" % (kind, v["op"], v["configured"] or "none",
+                                                           "advertised" if v["configured"] in v["advertised"] else "not-advertised",
+                                                           ("-auth=%s%d" % (v["auth"], v["rounds"])) if v.get("auth") else "")
                 what = "connection with compressor %s, SUPPORTED COMPRESSION=%s: STARTUP carried COMPRESSION=%r; frame %d of connection %d " \
                        "op=%d flags=%#x body %s (logical %s)" % (v["configured"] or "none", v["advertised"] if v["advkey"] else "absent",
                                                                  v["startup"], v["idx"], v["conn"], v["op"], v["flags"], _short(v["wire"]),
@@ -260,6 +261,9 @@ def run(ctx):
         encoder_bodies={a: summ[a]["enc"] for a in ("snappy", "lz4")}, decoder_inputs={a: summ[a]["dec"] for a in ("snappy", "lz4")},
         request_kinds_framer=len({v["name"] for v in vec["frames"]}), framer_vectors=len(vec["frames"]),
         negotiation_table=dict(exhaustive=True, sessions=summ["wire"]["sessions"], frames=len(vec["wire"]), opcodes_on_wire=ops,
+                               authentication=["none", "PasswordAuthenticator", "multi-round x 0,1,2 challenges"],
+                               auth_responses_on_wire=summ["wire"]["auth_responses"],
+                               auth_responses_flagged=sum(1 for v in vec["wire"] if v["op"] == 15 and v["flags"] % 2 == 1),
                                supported_sets=9, configured=["none", "snappy", "lz4", "vfxor"], protocols=[3, 4],
                                frames_without_logical_pair=summ["wire"]["unpaired"]),
         response_scenarios=len(vec["resp"]), response_crashes=summ["resp"]["crashes"],
